@@ -41,12 +41,30 @@ theorem borromean_verify_sites : Facts.borromean_verify = [
     ⟨.memcmp_var, 1, true, none⟩
   ] := by decide
 
-def all : List CallFact := Facts.whitelist_verify ++ Facts.whitelist_compute_tweaked_privkey ++ Facts.borromean_verify
+/-- `secp256k1_whitelist_hash_pubkey`: its fallible-primitive call sites are exactly these, each with its result / overflow flag
+    consumed as listed. -/
+theorem whitelist_hash_pubkey_sites : Facts.whitelist_hash_pubkey = [
+    ⟨.ge_is_infinity, 1, true, none⟩,
+    ⟨.scalar_set_b32, 1, false, some true⟩,
+    ⟨.scalar_is_zero, 1, true, none⟩
+  ] := by decide
+
+/-- `secp256k1_whitelist_sign`: its fallible-primitive call sites are exactly these, each with its result / overflow flag
+    consumed as listed. -/
+theorem whitelist_sign_sites : Facts.whitelist_sign = [
+    ⟨.ecmult_gen_context_is_built, 1, true, none⟩,
+    ⟨.scalar_set_b32, 1, false, some true⟩,
+    ⟨.scalar_is_zero, 1, true, none⟩,
+    ⟨.scalar_set_b32, 2, false, some true⟩,
+    ⟨.scalar_is_zero, 2, true, none⟩
+  ] := by decide
+
+def all : List CallFact := Facts.whitelist_verify ++ Facts.whitelist_compute_tweaked_privkey ++ Facts.borromean_verify ++ Facts.whitelist_hash_pubkey ++ Facts.whitelist_sign
 
 /-- No overflow flag written by a scalar decoding in these functions is ignored (overwritten or never read). -/
 theorem no_flag_dropped : ∀ f ∈ all, f.flag ≠ some false := by decide
 
 /-- non-vacuity: the regenerated fact lists are not empty -/
-example : all.length = 15 := by decide
+example : all.length = 23 := by decide
 
 end SecpZkp.Props.C16_guards
